@@ -28,6 +28,21 @@ RegApply(st, op) ==
        IF HasListFor(st, op.ty) THEN [st |-> st, res |-> "ListRedefinition"]
        ELSE [st |-> [st EXCEPT !.lists = Append(@, op.ty)], res |-> "ok"]
 
+(* Bulk registration: n successive add_field / add_optional_field (kind "field") or add_function (kind "func")  *)
+(* calls with the names  prefix0, prefix1, ..., prefix(n-1)  - one action of the trace specification, so that   *)
+(* registries far beyond the exhaustive bounds (more entries than fit into 16 bits) stay cheap to validate.     *)
+(* It is RegApply folded over the n operations under the stated precondition (the names are pairwise different  *)
+(* and new), hence every call succeeds and the entries are appended in order.                                   *)
+BulkNames(op) == Strict([i \in 1..op.n |-> op.prefix \o ToString(i - 1)])
+NameSet(st) == {st.fields[i].name : i \in 1..Len(st.fields)} \cup {st.funcs[i] : i \in 1..Len(st.funcs)}
+BulkFresh(st, op) == LET names == BulkNames(op) N == {names[i] : i \in 1..Len(names)}
+                     IN Cardinality(N) = op.n /\ N \cap NameSet(st) = {}
+BulkApply(st, op) ==
+  LET names == BulkNames(op) IN
+  IF op.kind = "field"
+  THEN [st EXCEPT !.fields = @ \o Strict([i \in 1..op.n |-> [name |-> names[i], ty |-> op.ty, opt |-> op.opt]])]
+  ELSE [st EXCEPT !.funcs = @ \o names]
+
 (* what the built scheme answers for a probe name *)
 Probe(st, n) ==
   [name |-> n,
@@ -48,8 +63,8 @@ Summary(st) == [nfields |-> Len(st.fields), nfuncs |-> Len(st.funcs), nlists |->
                 funcorder |-> st.funcs, listorder |-> st.lists, listlookup |-> ListLookup(st)]
 
 (* invariants *)
-Unique(st) == /\ \A i, j \in 1..Len(st.fields) : st.fields[i].name = st.fields[j].name => i = j
-              /\ \A i, j \in 1..Len(st.funcs) : st.funcs[i] = st.funcs[j] => i = j
-              /\ \A i \in 1..Len(st.fields) : ~IsFuncName(st, st.fields[i].name)
-              /\ \A i, j \in 1..Len(st.lists) : st.lists[i] = st.lists[j] => i = j
+(* (stated through cardinalities: no two entries share a name, fields and functions share one name space, no two *)
+(* lists share a type - the same statement as the pairwise one, linear instead of quadratic in the registry)   *)
+Unique(st) == /\ Cardinality(NameSet(st)) = Len(st.fields) + Len(st.funcs)
+              /\ Cardinality({st.lists[i] : i \in 1..Len(st.lists)}) = Len(st.lists)
 =============================================================================
